@@ -100,7 +100,7 @@ LEAK_ALL = leak("LK", (), 60, all_fns=True)
 LEAK_SCOPED = leak("R3", ("ACQ-SCOPED",), 30)
 
 prop("C01",
-     [cg.rule_L1, st.rule_L2, st.rule_L4, sig.rule_O1, ts.rule_SD, ts2.rule_K1, cg.rule_K2, ts2.rule_R5, ts2.rule_R3key, ts2.rule_R1,
+     [cg.rule_L1, st.rule_L2, st.rule_L4, sig.rule_O1, st.rule_N5, ts.rule_SD, ts2.rule_K1, cg.rule_K2, ts2.rule_R5, ts2.rule_R3key, ts2.rule_R1,
       A("rule_Y1"), A("rule_Y2")],
      "Premises of the Havender/Coffman argument, each a necessary condition visible in the code: L1 every safe function that can "
      "reach a blocking raw acquisition takes the key by value (call graph); L2 sorting collections cache get_ptrs(data) sorted "
@@ -168,11 +168,13 @@ prop("C15",
      thorough_rules=[W("C15", "nightly")])
 
 prop("C07",
-     [st.rule_N1N2, st.rule_N3, st.rule_N4, st.rule_L2, W("C07")],
+     [st.rule_N1N2, st.rule_N3, st.rule_N4, st.rule_N5, st.rule_L2, W("C07")],
      "N1/N2 a collection can only be built by an unsafe constructor, under an OwnedLockable bound, or on the no-duplicates edge of "
      "a check over the collection's own complete (for sorting collections: sorted) lock list; N3 the checks compare thin addresses "
      "of all adjacent pairs of the whole slice / insert every element into the address set; N4 OwnedLockable is never implemented "
-     "for shared references or borrowing collections and is inherited only through OwnedLockable parameters; compile-fail witnesses.",
+     "for shared references or borrowing collections and is inherited only through OwnedLockable parameters; N5 collections that can "
+     "hold borrowed locks give `&mut` access to their data only under an OwnedLockable bound (the checked fact cannot be invalidated); "
+     "compile-fail witnesses.",
      "exactness as a function of all inputs (correctness of slice::sort / HashSet); zero-sized lock types sharing an address.",
      thorough_rules=[W("C07", "nightly")])
 
